@@ -14,7 +14,7 @@ From LCC Require Import Base.Util Model.Proj Model.Sched.
 Definition case := (graph * nat * bool * list move)%type.
 Definition ok (c : case) : bool :=
   let '(g, n, sof, ms) := c in
-  closed_b g && acyclic_b g &&
+  wf_b g (toposort g) &&
   match run g n sof (init g n) ms with Some s => finished g s | None => false end.
 Definition where_rejected (c : case) : option nat :=
   let '(g, n, sof, ms) := c in first_rejected g n sof (init g n) ms 0.
@@ -32,6 +32,46 @@ def l1_case_term(case, r):
 def l1_file(terms):
     return COQ_HEADER + "Definition cases : list case := [\n  %s\n].\n" % ";\n  ".join(terms) + \
         "Eval vm_compute in (find_indexes (fun c => negb (ok c)) cases).\n"
+
+
+L2_HEADER = """From Coq Require Import List Arith Bool.
+Import ListNotations.
+From LCC Require Import Base.Util Model.Proj Model.Sched Model.Graph Model.Fixture Model.GraphOf.
+Definition ok (c : project * bool * graph) : bool :=
+  let '(p, f, g) := c in match graph_of_project p f with Some g' => graph_eqb g' g | None => false end.
+"""
+
+
+def check_l2(run, cases, results, relation="GraphOf.graph_of_project = runner.build_tasks (kinds, order, both dependency lists)"):
+    """Layer-2 correspondence: the model's task graph of the generated project equals the implementation's."""
+    import projcoq
+    terms, ids = [], []
+    for c in cases:
+        r = results.get(c["id"])
+        if not r or not r.get("graph"):
+            continue
+        try:
+            terms.append("(%s,\n %s,\n %s)" % (projcoq.c_project(c["project"]), lib.c_bool(c["options"].get("force_disabled")),
+                                              l1.c_graph(r["graph"])))
+        except l1.Unmodelled as e:
+            run.tie_broken(relation, case={"id": c["id"]}, detail="unmodelled: %s" % e)
+            continue
+        ids.append(c["id"])
+    if not run.model_ok or not terms:
+        return
+    shards = [(terms[i:i + 100], ids[i:i + 100]) for i in range(0, len(terms), 100)]
+    outs = run.coq_eval_many([("l2_%d" % k, L2_HEADER + "Definition cases : list (project * bool * graph) := [\n%s ].\n"
+                               "Eval vm_compute in (find_indexes (fun c => negb (ok c)) cases).\n" % ";\n".join(t))
+                              for k, (t, _) in enumerate(shards)])
+    for (t, idl), (rc, out) in zip(shards, outs):
+        bad = lib.parse_nat_list(out) if rc == 0 else None
+        if bad is None:
+            run.tie_broken(relation, detail="case file did not evaluate: " + out[-1200:])
+            continue
+        for b in bad[:3]:
+            case = next(c for c in cases if c["id"] == idl[b])
+            run.tie_broken(relation, case={"id": idl[b], "project": case["project"], "options": case["options"]},
+                           impl=results[idl[b]]["graph"])
 
 
 def gen_cases(run, n_cases, profile=None, threads=(1, 2, 3, 4), prefix="c"):
@@ -83,7 +123,8 @@ def check(run):
     ]
     run.assume += ["interleavings are explored at the yield points of harness/detsched.py (take, fire, mark, completion put, "
                    "main get, handler get, joins); pre-emption inside one of these atomic blocks is not exhibited"]
-    run.prove(extra_targets=["theories/Base/Util.vo", "theories/Model/Proj.vo", "theories/Model/Sched.vo"])
+    run.prove(extra_targets=["theories/Base/Util.vo", "theories/Model/Proj.vo", "theories/Model/Sched.vo",
+                             "theories/Model/GraphOf.vo"])
     n = 120 if run.tier == "quick" else 3000
     cases = gen_cases(run, n, profile={"p_empty_suite": 0.08}, threads=(1, 2, 3, 4) if run.tier == "quick" else (1, 2, 3, 4, 6, 8))
     results = sim.run_cases(cases)
@@ -102,6 +143,7 @@ def check(run):
             run.sample({"project": c["project"], "options": c["options"], "sched_prefix": c["sched"][:20],
                         "outcome": r.get("outcome"), "graph": r.get("graph")})
     check_l1(run, cases, results)
+    check_l2(run, cases, results)
     run.coverage["rule"] = ("seeded random projects (nested suites, disabled tests/suites, depends_on, fixtures of 4 scopes, hooks, "
                             "scripts with failures of every kind) run by the real runner under a deterministic scheduler with "
                             "random/biased schedules and 1..4 (thorough: ..8) threads; non-trivial = more than 3 tasks and more "
